@@ -29,7 +29,7 @@ type LexGenOpts struct {
 }
 
 func DefaultLexGenOpts() LexGenOpts {
-	return LexGenOpts{MaxToks: 5, MaxIgn: 2, MaxRegS1: 3, AllowS2: true, AllowDot: true, StrLits: 3, MaxDepth: 3}
+	return LexGenOpts{MaxToks: 5, MaxIgn: 2, MaxRegS1: 3, AllowS2: true, FreeRegdefs: true, AllowDot: true, StrLits: 3, MaxDepth: 3}
 }
 
 type lexGen struct {
